@@ -66,6 +66,9 @@ func c05Run(f []string) string {
 	if f[0] == "closelag" {
 		return c05CloseLag(f)
 	}
+	if f[0] == "closeord" {
+		return c05CloseOrd(f)
+	}
 	if f[0] != "agg" {
 		return "bad-op"
 	}
@@ -202,6 +205,7 @@ func c05Gen(r *Rand, tier string) []string {
 	out = append(out, c05StageCases(r, tier, []string{"d"})...)
 	out = append(out, c05SigGen(r, tier)...)
 	out = append(out, c05LoggerGen(r, tier)...)
+	out = append(out, c05CloseOrdGen(r, tier)...)
 	return append(out, aggTraceGen(r, tier)...)
 }
 
@@ -228,6 +232,14 @@ func c05Stats(cases []string) map[string]int {
 		}
 		if f[0] == "closelag" {
 			st["closelag.cases"]++
+			continue
+		}
+		if f[0] == "closeord" {
+			st["closeord.cases"]++
+			if f[3] == "0" {
+				st["closeord.follow"]++
+			}
+			st["closeord.readers_held.total"] = c05CloseOrdHeld
 			continue
 		}
 		if f[0] == "logger" || f[0] == "logerr" {
